@@ -384,7 +384,8 @@ def _run_graddrop(case, acc):
         percol = []
         for j in range(n):
             vals = [npdt(g) for g in grid]
-            if np.isfinite(P[j]) and not any(float(v) == float(P[j]) for v in vals):
+            # torch.rand draws from [0, 1): a tie with a purity of exactly 1 cannot be drawn and is not enumerated
+            if np.isfinite(P[j]) and float(P[j]) < 1.0 and not any(float(v) == float(P[j]) for v in vals):
                 if P[j] == Pt[j]:
                     vals.append(P[j])
                 else:
